@@ -47,7 +47,29 @@ func eventName(ci ssa.CallInstruction) string {
 	if fn == nil {
 		return ""
 	}
-	return funcEventName(fn)
+	return typedAtomicName(funcEventName(fn))
+}
+
+// typedAtomicName maps the methods of sync/atomic's typed values onto the names of the classic functions, so
+// that x.f.Load() on an atomic.Uint32 field and atomic.LoadUint32(&x.f) on a uint32 field are the same event
+// (in both forms the address of the field is the call's first argument).  atomic.Pointer[T] maps onto
+// atomic.Value: a typed cell instead of an interface-typed one.
+func typedAtomicName(n string) string {
+	if !strings.HasPrefix(n, "atomic.") {
+		return n
+	}
+	rest := strings.TrimPrefix(n, "atomic.")
+	typ, meth, ok := strings.Cut(rest, ".")
+	if !ok {
+		return n
+	}
+	switch typ {
+	case "Uint32", "Uint64", "Int32", "Int64", "Uintptr":
+		return "atomic." + meth + typ
+	case "Pointer":
+		return "atomic.Value." + meth
+	}
+	return n
 }
 
 func funcEventName(fn *ssa.Function) string {
